@@ -18,7 +18,7 @@ import C57
 from vlib import VERIF
 
 SPEC = os.path.join(VERIF, 'spec', 'store')
-KNOWN_LOCAL = os.path.join(VERIF, 'checks', 'C16u.known.json')
+KNOWN_LOCAL = os.path.join(VERIF, 'checks', 'C16u.known.json')   # also holds the C17 unit findings
 HDR = 40  # sizeof(Rock::DbCellHeader)
 
 
@@ -29,6 +29,8 @@ def workloads(ctx):
         'overwrite': ['put:1:1:20000', 'put:2:1:5000', 'del:1', 'put:1:2:20000', 'del:2', 'put:3:1:30000'],
         # 3-slot entries; eviction followed by a different key reusing the slots; single-slot overwrite
         'evict': ['put:1:1:40000', 'put:2:1:30000', 'del:1', 'put:3:1:45000', 'put:4:1:700', 'del:4', 'put:4:2:900'],
+        # a URL is re-stored with fewer slots: a slot of its previous edition stays on the disk (TLC: MC_RockWriter, SurvivesShutdown)
+        'shrink': ['put:1:1:20000', 'put:2:1:3000', 'del:1', 'put:1:2:5000'],
     }
     for r in range(6 if ctx.thorough else 1):
         ops, ver = [], {}
@@ -63,17 +65,32 @@ def make_cases(wl, recs, specs, fix, shutdown_only=False):
     nw = len(wl['writes'])
     writes = [{f: w[f] for f in ('seq', 'op', 'slot', 'aligned', 'key', 'ver', 'first', 'next', 'pay', 'esz', 'len', 'mok', 'mkey')} for w in wl['writes']]
     for rec, (k, cut, _) in zip(recs, specs):
-        kind = 'shutdown' if (k == nw and cut == 0) else 'crash'
-        if shutdown_only and kind != 'shutdown':
+        if shutdown_only and not (k == nw and cut == 0):
             continue
+        kind = 'shutdown' if shutdown_only else 'crash'     # C16 judges the crash after the last write by CrashConsistent only
         cases.append({'kind': kind, 'ops': wl['ops'], 'writes': writes, 'k': k, 'cut': cut, 'n': wl['n'], 'kf': wl['kf'], 'fix': fix,
                       'img': C57.img_from_slots(wl['n'], rec.get('slots', [])), 'out': C57.tla_out(rec['out']),
                       'served': rec.get('served', []), 'line': rec.get('line', '')})
     return cases
 
 
+def classify_lost(case):
+    """C17: a kept entry that is not served intact after the clean restart"""
+    ops = case['ops']
+    for j, o in enumerate(ops):
+        if not (o['op'] == 'put' and o['status'] == 'done' and o['first_seq'] <= o['last_seq']) or any(p['obj'] == o['obj'] for p in ops[j + 1:]):
+            continue
+        if any(s.get('hit') and s.get('intact') and (s['obj'], s.get('ver'), s.get('len')) == (o['obj'], o['ver'], o['len']) for s in case['served']):
+            continue
+        own = {w['slot'] for w in case['writes'] if o['first_seq'] <= w['seq'] <= o['last_seq']}
+        # keys are numbered by object: a sane slot with the entry's key outside its chain is a leftover of an earlier edition
+        stale = [s for s, v in enumerate(case['img']) if v['t'] == 'H' and v['key'] == o['obj'] and s not in own]
+        return {'shape': 'lost-after-restart', 'stale_same_key_slots': bool(stale)}
+    return None
+
+
 def classify(case):
-    """shape of a C16 rejection (the verdict is TLC's)"""
+    """shape of a C16/C17 rejection (the verdict is TLC's)"""
     ops, k, cut = case['ops'], case['k'], case['cut']
     if not case['out']['done']:
         return {'shape': 'restart-failed', 'crash': C57.norm_crash(case['out'].get('crash'))}
@@ -123,7 +140,9 @@ def evaluate(ctx, prop, exe, fix, names, shutdown_only, label):
     shapes = {}
     for i in prej:
         c = all_cases[i]
-        cls = classify(c) if c['kind'] == 'crash' or not c['out']['done'] else dict(classify(c), kind='shutdown')
+        cls = classify(c)
+        if cls['shape'] == 'none' and c['kind'] == 'shutdown':
+            cls = classify_lost(c) or cls
         key = json.dumps(cls, sort_keys=True)
         shapes[key] = shapes.get(key, 0) + 1
         if len(ctx.violations) < 5:
